@@ -433,7 +433,7 @@ def r5(ctx, F):
                 from rules.C01 import norm_add as _na
                 lhs = _na(term_of(fl, rv['ops'][0]))
                 rhs_o = fl.origins(rv['ops'][1])
-                if lhs[0] == 'add' and any(o.kind == 'param' and b.local_name(o.key) == 'offset' for o in rhs_o):
+                if lhs[0] == 'add' and any(o.kind == 'param' and b.local_ty(o.key) == 'u64' for o in rhs_o):
                     oc = fl.outcomes(None, s2['dst']['l'])
                     if oc.get('true') and cfg.edges_guard(oc['true'], bi):
                         g_eq = True
